@@ -48,7 +48,7 @@ CHECKS.update({
  "C06": dict(
   level="exploration",
   technique="exhaustive enumeration of all pairs of 40 boundary doubles x arithmetic operators and numeric functions, compared by bit pattern with Go float64",
-  text="All ordered pairs of 40 boundary doubles x {+,-,*,div,mod}, unary minus, floor/ceiling/round of each, as variables and as literals; sum()/count() over all node-sets of size <=3 from a 10-text alphabet; sum() over every sequence of <=4 distinct nodes from 9 texts whose sum depends on rounding, cancellation and overflow to infinity (any order of IEEE additions accepted); every operator and rounding function with node-set operands in every storage order (all permutations of every 2-3 subset) and with reverse-axis paths as operands. No error or 'xpath query panic' allowed.",
+  text="All ordered pairs of 40 boundary doubles x {+,-,*,div,mod}, unary minus, floor/ceiling/round of each, as variables and as literals; sum()/count() over all node-sets of size <=3 from a 10-text alphabet; sum() over every sequence of <=4 distinct nodes from 9 texts whose sum depends on rounding, cancellation and overflow to infinity (any order of IEEE additions accepted); every operator and rounding function with node-set operands in every storage order (all permutations of every 2-3 subset) and with reverse-axis paths as operands. No error or 'xpath query panic' allowed. sum() over elements with mixed content (text split by comments, processing instructions and child elements): 26 paths and every 1-2 element operand.",
   note="Open known finding C06-round-negative-tie (pinned by the repository's TestFunctionRound). Sign of zero not compared for round().",
   ref="2 C06"),
  "C07": dict(
@@ -60,13 +60,13 @@ CHECKS.update({
  "C18": dict(
   level="exploration",
   technique="bounded-exhaustive enumeration of documents x starting nodes x relative expressions against the reference, plus path-split composition checked implementation-against-itself",
-  text="All forests <=3/4 nodes x 4 decorations: every node of every kind as Exec starting cursor for ~190 relative expressions (vs. reference at context (n,1,1)); 30 prefixes x 50 suffixes (incl. numeric predicates not spelled as numbers: [$n], [count(../*) - 1], [string-length(name())]): Exec(root,P/R) against the union of Exec(n,R); the same composition on every ordered forest of 4-5 (thorough 6) elements; P/f() against f(P) for the 7 context-dependent builtins.",
+  text="All forests <=3/4 nodes x 4 decorations: every node of every kind as Exec starting cursor for ~190 relative expressions (vs. reference at context (n,1,1)); 30 prefixes x 50 suffixes (incl. numeric predicates not spelled as numbers: [$n], [count(../*) - 1], [string-length(name())]): Exec(root,P/R) against the union of Exec(n,R); the same composition on every ordered forest of 4-5 (thorough 6) elements; P/f() against f(P) for the 7 context-dependent builtins. 18 relative expressions and 6 suffixes with an absolute path inside a predicate, function argument, union or parenthesis, from every node.",
   note="Unmarshal tag context is covered in C19.",
   ref="2 C18"),
  "C11": dict(
   level="exploration",
   technique="bounded-exhaustive enumeration of binding environments x documents x expressions against the reference evaluated under the same bindings; call logs of recording user functions compared",
-  text="27 binding environments (every other one handed over by assigning caller-built maps to the ContextSettings fields, as the CLI does; two prefixes each unbound/urn:u/urn:v incl. aliases x three function libraries incl. user count()/true() shadowing builtins; variables of all four types in three namespaces) x all forests <=3/4 nodes with namespaced elements/attributes x ~100 expressions using prefixed names, variables and calls (incl. prefixed calls spelling core functions; a bare node-set variable reference must return exactly the bound sequence); results and the (arguments, context, position, size) observed by user functions compared with the reference; ExecAsString / ExecAsNumber / ExecAsNodeset must give Exec's answer (converted) for every expression under every environment.",
+  text="27 binding environments (every other one handed over by assigning caller-built maps to the ContextSettings fields, as the CLI does; two prefixes each unbound/urn:u/urn:v incl. aliases x three function libraries incl. user count()/true() shadowing builtins; variables of all four types in three namespaces) x all forests <=3/4 nodes with namespaced elements/attributes x ~100 expressions using prefixed names, variables and calls (incl. prefixed calls spelling core functions; a bare node-set variable reference must return exactly the bound sequence); results and the (arguments, context, position, size) observed by user functions compared with the reference; ExecAsString / ExecAsNumber / ExecAsNodeset must give Exec's answer (converted) for every expression under every environment. 3 environments with a prefix bound to the empty namespace name x 17 prefixed name tests (bound, not unbound).",
   note="Assumes the library's documented 0-based ContextPosition(). Unbound names only in positions every evaluator must evaluate.",
   ref="2 C11"),
  "C12": dict(
@@ -78,7 +78,7 @@ CHECKS.update({
  "C08": dict(
   level="exploration",
   technique="exhaustive enumeration of all token strings up to a length bound plus grammar-derived ASTs in several renderings, against a reference recogniser/evaluator",
-  text="All token strings of length <=4 (quick) / <=5 (thorough) over a 26-token alphabet, joined with and without spaces: the reference recogniser decides expression vs. non-expression; non-expressions and XPath type errors must error, expressions must evaluate to the reference value. ~5000 generated ASTs (every sequence of <=3 steps over a 10-step alphabet abbreviated and expanded, context-dependent expressions in every argument slot of 9 functions, every triple of binary operators in both association shapes, unary minus/union vs. every operator, '*' everywhere, reserved-looking names, numeral/literal forms, nested predicates, predicated steps after a mid-path '//', filter paths, calls) rendered 6 ways on 3 documents against the reference evaluation of the generating tree; ~400 hand-listed lexical edge cases.",
+  text="All token strings of length <=4 (quick) / <=5 (thorough) over a 26-token alphabet, joined with and without spaces: the reference recogniser decides expression vs. non-expression; non-expressions and XPath type errors must error, expressions must evaluate to the reference value. ~5000 generated ASTs (every sequence of <=3 steps over a 10-step alphabet abbreviated and expanded, context-dependent expressions in every argument slot of 9 functions, every triple of binary operators in both association shapes, unary minus/union vs. every operator, '*' everywhere, reserved-looking names, numeral/literal forms, nested predicates, predicated steps after a mid-path '//', filter paths, calls) rendered 6 ways on 3 documents against the reference evaluation of the generating tree; ~400 hand-listed lexical edge cases. Every axis and spelling of a step after a number, string, boolean, variable or parenthesised primary (39 lexical cases) must be an error.",
   note="Six open known findings, all in the generated lexer/grammar (gogll not available to regenerate): operator names reserved, '1.', '_' name start, whitespace inside QNames, Unicode spaces as whitespace, backslash escapes in literals. An error at the first Exec counts as rejection.",
   ref="2 C08"),
  "C09": dict(
@@ -114,8 +114,8 @@ CHECKS.update({
  "C14": dict(
   level="model_checking",
   technique="stateless model checking of the real code under a cooperative scheduler: DFS over all thread schedules with iterative preemption bounding; library through proxy cursors whose accessors are scheduling points, CLI through on-the-fly source rewriting + go build -overlay (one process per execution)",
-  text="Library: 15 scenarios of 2-3 threads x 1-2 real Exec calls sharing tree, compiled expressions, caller maps and a caller slice with spare capacity (two scenarios pass per-call bindings through the With* option helpers instead); every schedule with <=2 (thorough 3) preemptions: each call returns its serial result, shared slices unchanged at every scheduling point, deep fingerprints unchanged. Worker bodies: 7 scenarios of 2-3 documents (XML with attributes/namespaces, HTML, JSON) read concurrently through the library's parsers with a scheduling point at every Pull and every 12-byte Read, every schedule with <=3 (thorough 4) preemptions, each tree equal to the tree built alone. CLI: the real main() (rewritten: go statements, channel ops, WaitGroup/Mutex, every stdout/stderr write are scheduling points) on 6 file/flag scenarios with -c 2..4: no deadlock, stdout = concatenation of exactly the serial per-file blocks (contiguous, intact, any order), nothing written after main returns, diagnostics present. Auxiliary: the same library bodies and concurrent document reads free-running under the race detector.",
-  note="Partial-order reduction for the library half: two audited executions per scenario take the full fingerprint of everything shared (proxy lists with spare capacity, real tree, compiled expressions, binding maps, caller slices, and - through a generated build overlay - every package-level variable of the library) at EVERY scheduling point, and a go/ast scan looks for writes to package-level variables outside init(); if nothing changes, every step is a read of shared state, steps are independent and all interleavings are trace-equivalent to the audited ones (evidence key library_reduction; not claimed otherwise). The CLI search prunes decisions already expanded from an identical global state (state key = per-thread operation/observation histories + channel contents + WaitGroup/mutex states + writes so far; validated at bound 1 against the unpruned search on every run). Quick caps each scenario of the bounded search (25000 / 4000 executions) and then reports exhaustive:false with the bounds completed. Interleavings below the granularity of tree accesses / user-function calls are only covered by the auxiliary -race pass. Every library scenario and every read scenario is explored in a process of its own; an execution that does not end within 100000 scheduling points, a call in flight for 240 s, a CLI execution longer than 5 minutes or a race pass longer than 20 minutes is reported as a violation (the calls take milliseconds). No hook is committed to /repo.",
+  text="Library: 15 scenarios of 2-3 threads x 1-2 real Exec calls sharing tree, compiled expressions, caller maps and a caller slice with spare capacity (two scenarios pass per-call bindings through the With* option helpers instead); every schedule with <=2 (thorough 3) preemptions: each call returns its serial result, shared slices unchanged at every scheduling point, deep fingerprints unchanged. Worker bodies: 7 scenarios of 2-3 documents (XML with attributes/namespaces, HTML, JSON) read concurrently through the library's parsers with a scheduling point at every Pull and every 12-byte Read, every schedule with <=3 (thorough 4) preemptions, each tree equal to the tree built alone. CLI: the real main() (rewritten: go statements, channel ops, WaitGroup/Mutex, every stdout/stderr write are scheduling points) on 6 file/flag scenarios with -c 2..4: no deadlock, stdout = concatenation of exactly the serial per-file blocks (contiguous, intact, any order), nothing written after main returns, diagnostics present. Auxiliary: the same library bodies and concurrent document reads free-running under the race detector, and the REAL tool built with the race detector on every CLI scenario with 8 workers and every input named five times (6 runs each): race detector silent, stdout = the one-worker multiset of lines.",
+  note="Partial-order reduction for the library half: two audited executions per scenario take the full fingerprint of everything shared (proxy lists with spare capacity, real tree, compiled expressions, binding maps, caller slices, and - through a generated build overlay - every package-level variable of the library) at EVERY scheduling point, and a go/ast scan looks for writes to package-level variables outside init(); if nothing changes, every step is a read of shared state, steps are independent and all interleavings are trace-equivalent to the audited ones (evidence key library_reduction; not claimed otherwise). The CLI search prunes decisions already expanded from an identical global state (state key = per-thread operation/observation histories + channel contents + WaitGroup/mutex states + writes so far; validated at bound 1 against the unpruned search on every run). Quick caps each scenario of the bounded search (25000 / 4000 executions) and then reports exhaustive:false with the bounds completed. Interleavings below the granularity of tree accesses / user-function calls (library) and of output / synchronisation operations (tool) are only covered by the auxiliary -race passes. Every library scenario and every read scenario is explored in a process of its own; an execution that does not end within 100000 scheduling points, a call in flight for 240 s, a CLI execution longer than 5 minutes or a race pass longer than 20 minutes is reported as a violation (the calls take milliseconds). No hook is committed to /repo.",
   ref="2 C14"),
  "C20": dict(
   level="exploration",
